@@ -84,9 +84,9 @@ def msg_request_vote(ctx):
         ctx.prove(Eq(m.items['term'], mt), 'C03:R2.reply-carries-request-term')
         ctx.prove(mt == t1, 'C03+C07:R2.vote-only-for-current-term')
         ctx.prove(Eq(vf1, NodeId(node.idx)), 'C03+C07:R2.vote-recorded')
-        ctx.prove(Implies(Not(stepped), Eq(vf0, None)), 'C03+C07:R2.single-vote-per-term')
+        ctx.prove(Implies(Not(stepped), Eq(vf0, None)), 'C03+C07+C01+C04:R2.single-vote-per-term')
         lt, li = log.term_at(log.last_idx()), log.last_idx()
-        ctx.prove(Or(llt > lt, And(llt == lt, lli >= li)), 'C03:R2.candidate-log-up-to-date')
+        ctx.prove(Or(llt > lt, And(llt == lt, lli >= li)), 'C03+C01+C04:R2.candidate-log-up-to-date')
         ctx.prove(r1 != LEADER, 'C03:R2.leader-does-not-vote')
     else:
         ctx.prove(Implies(Not(stepped), Eq(vf1, vf0)), 'C03+C07:R1.vote-unchanged-without-grant')
@@ -156,10 +156,10 @@ def msg_response_vote(ctx):
     counted = And(r0 == CAND, mt == t0)
     ctx.prove(t1 == t0, 'C03+C07:R1.term-unchanged')
     ctx.prove(Eq(so.get('votedForNodeId'), old.get('votedForNodeId')), 'C03+C07:R1.vote-unchanged')
-    ctx.prove(Implies(counted, v1 == v0 + 1), 'C03:R3.vote-counted-once')
-    ctx.prove(Implies(Not(counted), And(v1 == v0, r1 == r0)), 'C03+C20:R3.stale-vote-ignored')
-    ctx.prove(Implies(And(r1 == LEADER, r0 != LEADER), And(counted, majority(v1, nv))), 'C03:R3.leader-only-with-majority')
-    ctx.prove(Implies(And(counted, Not(majority(v0 + 1, nv))), r1 == CAND), 'C03:R3.stays-candidate-below-majority')
+    ctx.prove(Implies(counted, v1 == v0 + 1), 'C03+C01+C04:R3.vote-counted-once')
+    ctx.prove(Implies(Not(counted), And(v1 == v0, r1 == r0)), 'C03+C20+C01+C04:R3.stale-vote-ignored')
+    ctx.prove(Implies(And(r1 == LEADER, r0 != LEADER), And(counted, majority(v1, nv))), 'C03+C01+C04:R3.leader-only-with-majority')
+    ctx.prove(Implies(And(counted, Not(majority(v0 + 1, nv))), r1 == CAND), 'C03+C01+C04:R3.stays-candidate-below-majority')
     ctx.prove(Implies(so.get('selfNode').isnone, r1 == FOLL), 'C18:O18.1.readonly-stays-follower')
     log, olog = so.log(), old.get('raftLog')
     became = And(r1 == LEADER, r0 != LEADER)
@@ -170,7 +170,7 @@ def msg_response_vote(ctx):
         j = FreshInt('j')
         ctx.assume(And(j >= 0, j < olog.n))
         ctx.prove(And(log.termf(j) == olog.termf(j), log.cmdf(j) == olog.cmdf(j)), 'C03:R5.leader-keeps-existing-entries')
-        ctx.prove(Eq(so.get('noopIDx'), olog.last_idx() + 1), 'C10:R4.noop-index-recorded')
+        ctx.prove(Eq(so.get('noopIDx'), olog.last_idx() + 1), 'C10+C04+C01:R4.noop-index-recorded')
         ctx.prove(Eq(so.get('raftLeader'), NodeV(so.U)), 'C03:R4.leader-is-self')
         mt_, voters, obs = so.cell('raftMatchIndex'), so.cell('otherNodes').bits, so.cell('readonlyNodes').bits
         ctx.prove(And(*[Implies(Or(voters[i], obs[i]), And(mt_.pres[i], Eq(mt_.vals[i], 0))) for i in range(so.U)]),
